@@ -24,11 +24,11 @@ impl Visit for VBfs<'_> {
         run_bfs::<G>(self.0, self.1)
     }
 }
-struct VUnmerged<'a>(&'a Ctx, &'a mut Collector);
+struct VUnmerged<'a>(&'a Ctx, &'a mut Collector, bool);
 impl Visit for VUnmerged<'_> {
     type Out = ();
     fn go<G: Cfg>(self) {
-        run_unmerged::<G>(self.0, self.1)
+        run_unmerged::<G>(self.0, self.1, self.2)
     }
 }
 struct VHue;
@@ -122,29 +122,34 @@ fn run_bfs<G: Cfg>(ctx: &Ctx, total: &mut Collector) {
         &sub,
         visited.len() == want,
         &format!(
-            "merged BFS to closure: every sequence of <= {} colours from a {}-colour set ({} states) x the complete alphabet of that state (push, pop, clear, extend/collect of 0..=2 colours, with_capacity, get/get_mut(index) for index 0..=len+1 and usize::MAX, get/get_mut(range)+write and drain(range) for all 6 range forms with bounds 0..=len+1 (+ ..=MAX) x every consumption script (next^k, next_back^k, both alternations, then drop/count/forget), iter/iter_mut/into_iter over Vec, [T;N], &[T], &mut [T], Box<[T]> backings (13 IntoIterator impls) x every script ending in drop/count)",
+            "merged BFS to closure: every sequence of <= {} colours from a {}-colour set ({} states) x the complete alphabet of that state (push, pop, clear, extend/collect of 0..=2 colours, with_capacity, get(index|range) through Vec, [T;N], &[T], &mut [T], Box<[T]> backings and get_mut(index|range)+write for index 0..=len+1 and usize::MAX, and drain(range) for all 6 range forms with bounds 0..=len+1 (+ ..=MAX) x every consumption script (next^k, next_back^k, both alternations, then drop/count/forget), iter/iter_mut/into_iter over Vec, [T;N], &[T], &mut [T], Box<[T]> backings (13 IntoIterator impls) x every script ending in drop/count)",
             p.max_len, p.ncol, want
         ),
     );
 }
 
-fn run_unmerged<G: Cfg>(ctx: &Ctx, total: &mut Collector) {
+fn run_unmerged<G: Cfg>(ctx: &Ctx, total: &mut Collector, every_type: bool) {
     let name = G::name();
     let sub = format!("unmerged/{name}");
     if !is_full(&name) || !ctx.wants(&sub) {
         return;
     }
     // quick: the four types that cover {no hue, hue} x {phantom parameter, none} x {1, 3 components}
-    if ctx.tier == Tier::Quick && !["Rgb", "Hsv", "Luma", "Cam16Jch"].contains(&name.trim_end_matches("+alpha")) {
+    if !every_type && ctx.tier == Tier::Quick && !["Rgb", "Hsv", "Luma", "Cam16Jch"].contains(&name.trim_end_matches("+alpha")) {
         return;
     }
     let depth = 3;
     let p = Params { max_len: ctx.tier.pick(5, 6), ncol: ctx.tier.pick(2, 3), level: Level::Reduced, predict_model_panics: true };
     let (c1, merged) = bfs::<G>(&sub, &p, ctx.seed);
     let (c2, un) = unmerged::<G>(&sub, &p, depth);
+    // sequences that diverge from the Vec are reported by their own signature and not extended,
+    // so the two reachable sets are only comparable when no operation mismatched
+    let clean = c1.viol.is_empty() && c2.viol.is_empty();
     total.merge(c1);
     total.merge(c2);
-    cross_check::<G>(total, &p, depth, &merged, &un);
+    if clean {
+        cross_check::<G>(total, &p, depth, &merged, &un);
+    }
     total.exhaustive(
         &sub,
         true,
@@ -287,7 +292,7 @@ fn replay(ctx: &Ctx, c: &mut Collector, rep: &Value) {
     let cfg = case["cfg"].as_str().unwrap_or("").to_string();
     if case["sub"] == "unmerged" {
         // the reachable-set cross-check: re-run it for that configuration
-        if dispatch(&cfg, VUnmerged(ctx, c)).is_none() {
+        if dispatch(&cfg, VUnmerged(ctx, c, true)).is_none() {
             eprintln!("replay: unknown type config {cfg}");
             std::process::exit(3);
         }
@@ -320,7 +325,7 @@ fn real_main() -> i32 {
         let _ = dispatch(&name, VBfs(&ctx, &mut total));
     }
     for name in all_names() {
-        let _ = dispatch(&name, VUnmerged(&ctx, &mut total));
+        let _ = dispatch(&name, VUnmerged(&ctx, &mut total, false));
     }
     total.note("type_configs", json!(all_names()));
     let run: Vec<String> = all_names().into_iter().filter(|n| ctx.wants(&format!("bfs/{n}")) || ctx.wants(&format!("basic/{n}")) || ctx.wants(&format!("unmerged/{n}"))).collect();
